@@ -672,6 +672,8 @@ def as_alg(x):
 
 def alg_equal(a, b):
     a, b = as_alg(a), as_alg(b)
+    if (isinstance(a, Rat) or isinstance(b, Rat)) and certainly_different(a, b):
+        return False
     if isinstance(a, Rat) or isinstance(b, Rat):
         return Rat.of(a) == Rat.of(b)
     return a == b
@@ -711,3 +713,49 @@ def self_test():
 
 if __name__ == '__main__':
     print(self_test())
+
+
+_POINTS = {}
+
+
+def _point(atom, k):
+    """deterministic 'generic' rational value for an atom (k-th evaluation point)"""
+    key = (atom, k)
+    if key not in _POINTS:
+        import hashlib
+        h = int(hashlib.sha1(('%s|%d' % (atom, k)).encode()).hexdigest()[:8], 16)
+        _POINTS[key] = Fr(3 + h % 9973, 7 + (h >> 13) % 997)
+    return _POINTS[key]
+
+
+def eval_at(v, k):
+    """Exact value (Z8) of a Poly/Rat with integer exponents at the k-th generic rational point."""
+    if isinstance(v, (int, Fr)):
+        return Z8.of(v)
+    if isinstance(v, Rat):
+        d = eval_at(v.d, k)
+        if d.is_zero():
+            raise AlgebraError('generic point hits a pole')
+        return eval_at(v.n, k) / d
+    tot = Z8.ZERO
+    for mono, c in v.t.items():
+        term = c
+        for s_, e in mono:
+            if e.denominator != 1:
+                raise AlgebraError('fractional exponent in point evaluation')
+            term = term * Z8.of(_point(s_, k) ** int(e))
+        tot = tot + term
+    return tot
+
+
+def certainly_different(a, b, points=2):
+    """True when a and b (Poly/Rat) take different values at a generic rational point: a sound proof of
+    inequality (never claims difference for equal terms).  False = no decision."""
+    a, b = as_alg(a), as_alg(b)
+    try:
+        for k in range(points):
+            if eval_at(a, k) != eval_at(b, k):
+                return True
+    except AlgebraError:
+        return False
+    return False
